@@ -148,6 +148,9 @@ class Exec:
         self.globals_init = {}
         self.trace = None
         self.dump_queries = None  # list collecting (smt2, result) samples for cross-solver checks
+        self.stubs = {}           # function name -> callable(path, caller, ins, argvalues): replaces a callee (stated per harness)
+        self.floor_hook = None    # callable(path, operand, is_ceil) -> XR, or None for the normal semantics
+        self.fptosi_hook = None   # callable(path, operand, target type) -> int value, or None for the normal semantics
 
     # ------------------------------------------------------------ solver
     def solver_check(self, constraints, want_model=True, timeout_ms=None):
@@ -530,9 +533,15 @@ class Exec:
                 v = int(v)
             if is_concrete_int(v):
                 return float(v)
-            return XR(xr.Eps.round(z3.ToReal(v)))
+            if v.sort() == z3.RealSort():
+                return XR(v)      # real-valued stand-in for an integer (pure-NRA harnesses)
+            return XR(z3.ToReal(v))   # exact below 2^53 (assumption stated in the evidence)
         if op == 'fptosi':
             lo, hi = INT_RANGE[t2]
+            if self.fptosi_hook is not None:
+                r = self.fptosi_hook(path, v, t2)
+                if r is not None:
+                    return r
             if xr.is_conc(v):
                 if math.isnan(v) or math.isinf(v) or not (lo - 1 < v < hi + 1):
                     self.viol(path, 'fptosi-out-of-range', True, fn, ins, ins.dst, repr(v))
@@ -589,6 +598,20 @@ class Exec:
             return xr.fmin(a[0], a[1])
         if name == 'llvm.maxnum.f64' or name == 'fmax':
             return xr.fmax(a[0], a[1])
+        if name in ('floor', 'llvm.floor.f64', 'ceil', 'llvm.ceil.f64'):
+            v = a[0]
+            up = 'ceil' in name
+            if self.floor_hook is not None and not xr.is_conc(v):
+                r = self.floor_hook(path, v, up)
+                if r is not None:
+                    return r
+            if xr.is_conc(v):
+                if math.isnan(v) or math.isinf(v):
+                    return v
+                return float(math.ceil(v) if up else math.floor(v))
+            x = v.val
+            r = -z3.ToReal(z3.ToInt(-x)) if up else z3.ToReal(z3.ToInt(x))
+            return XR(r, None, v.nan, v.pinf, v.ninf)
         if name == 'sqrt':
             v = a[0]
             if xr.is_conc(v):
@@ -736,7 +759,9 @@ class Exec:
                         g = self.lookup_func(target.name, f)
                     else:
                         g = self.lookup_func(callee[1:], f)
-                    if g is not None:
+                    if self.stubs and callee[1:] in self.stubs:
+                        r = self.stubs[callee[1:]](path, f, ins, [v for _, v in avals])
+                    elif g is not None:
                         r = self.call(path, g, [v for _, v in avals])
                     else:
                         r = self.external(path, f, ins, callee[1:], avals, env)
